@@ -42,8 +42,12 @@ def _match(a, b, k):
 
 
 collations: dict[str, Callable[[str, str, str], bool]] = {
+    # bytes.upper() only maps the ASCII letters; other characters compare
+    # octet by octet, as RFC 4790 section 9.2 asks for.
     "i;ascii-casemap": lambda a, b, k: _match(
-        a.encode("ascii").upper(), b.encode("ascii").upper(), k
+        a.encode("utf-8", "surrogateescape").upper(),
+        b.encode("utf-8", "surrogateescape").upper(),
+        k,
     ),
     "i;octet": lambda a, b, k: _match(a, b, k),
     # TODO(jelmer): Follow all rules as specified in
